@@ -8,7 +8,7 @@ unset GOTOOLCHAIN
 mkdir -p .work/bin evidence replays lean/CqlVerif/Gen lean/CqlVerif/Audit
 (cd harness && CGO_ENABLED=0 go build -tags verif -o ../.work/bin/vh ./cmd/vh)
 # the regenerated Lean parts (never committed): every translator once, from /repo's working tree
-for g in config policy slot lexer panics locks tls gate; do
+for g in config policy slot lexer panics locks tls gate retrygate; do
   ./.work/bin/vh extract $g -out lean/CqlVerif/Gen
 done
 (cd lean && lake build driver CqlVerif)
